@@ -367,8 +367,25 @@ def rnd_event(rng, kind):
     raise ValueError(kind)
 
 
+def boundary_histories(ctx):
+    """File Data PDUs whose payload is set to the sizes around the 16-bit data field limit"""
+    rng = ctx.rng
+    from .cfdp_common import rnd_cfg
+    for crc in (0, 1):
+        for large in (0, 1):
+            for over in (0, 1):
+                cfg = rnd_cfg(rng, crc=crc, large=large)
+                val = {"offset": [0, 0, 1, 0], "data": [1, 2], "meta": []}
+                w = Obj("filedata", cfg, val)
+                yield {"op": "init", "kind": "filedata", "cfg": cfg, "val": val, "obs": outcome(lambda: w.observe())}
+                n = 65535 - (8 if large else 4) - 2 * crc + over
+                ev = {"a": "set", "f": "data", "x": [7] * n}
+                yield {"op": "ev", "ev": ev, "obs": outcome(lambda: (w.apply(ev), w.observe())[1])}
+
+
 def histories(ctx):
     rng = ctx.rng
+    yield from boundary_histories(ctx)
     for _ in range(ctx.q(5000, 150000)):
         kind = rng.choice(KINDS)
         cfg, val = rnd_init(rng, kind)
